@@ -217,7 +217,35 @@ func (fg *FG) instr(st *State, in ssa.Instruction) {
 			fg.safe("nil", in, fmt.Sprintf("(not (= %s 0))", l.Ref))
 		}
 		if v.Loc != nil && v.T == "" {
-			fg.fail("interior address stored to memory (outside the subset)")
+			// &obj.f stored into memory: a fresh cell holding the pointee's current value stands in for
+			// the interior address. Only accepted when the function never writes that field afterwards
+			// by a store of its own (checked here); callees writing it through another path are not
+			// modelled (recorded as an assumption of the function).
+			fa, isFA := x.Val.(*ssa.FieldAddr)
+			el := x.Val.Type().(*types.Pointer).Elem()
+			_, isS := structOf(el)
+			_, isA := types.Unalias(el).Underlying().(*types.Array)
+			if !isFA || isS || isA {
+				fg.fail("interior address stored to memory (outside the subset)")
+			}
+			for _, b := range fg.fn.Blocks {
+				for _, oi := range b.Instrs {
+					if os, ok := oi.(*ssa.Store); ok && os != x {
+						if ofa, ok2 := os.Addr.(*ssa.FieldAddr); ok2 && ofa.Field == fa.Field && types.Identical(ofa.X.Type(), fa.X.Type()) {
+							fg.fail("interior address stored to memory while the function also writes that field (outside the subset)")
+						}
+					}
+				}
+			}
+			r := fg.allocRef(st)
+			fg.assume(fmt.Sprintf("(> %s 0)", r))
+			fam, csrt := fg.cellFamily(el)
+			fg.heapSort[fam] = csrt
+			fg.store(st, &Loc{Kind: LCell, Heap: fam, Ref: r, Ty: el}, fg.load(st, v.Loc))
+			fg.snapshotCells++
+			v = Val{T: r, Ty: x.Val.Type()}
+		}
+		if false {
 		}
 		fg.frameCheck(st, l, in)
 		fg.store(st, l, v.T)
